@@ -1,6 +1,8 @@
 //! C02 — module loading terminates; only real cycles are loop errors.
 
 use crate::core::*;
+#[allow(unused_imports)]
+use crate::core::StatsExt;
 use crate::gen::{gen_graph, GraphParams};
 use crate::loader::*;
 use crate::model::{reachable_cycle, run_model, Verdict};
@@ -268,6 +270,9 @@ impl Prop for C02 {
             out.push(serde_json::to_value(Case { spec: g, chunk: case.chunk }).unwrap());
         }
         out
+    }
+    fn evidence_extra(&self, stats: &Stats) -> Json {
+        crate::core::world_a_extra(stats)
     }
     fn rule(&self) -> String {
         "One run = one generated load graph (1-4 files, sometimes 5-8; edges drawn from @use/@forward/@import/meta.load-css; urls spelled canonically or with ./, x/../ and ../d/ noise; 0-2 load paths; wrappers) compiled by the real library through SimLoader, judged against reachability of a cycle over canonical file identity; strata = file count x kind subset x spelling class x cyclic, hit round-robin. A run is non-trivial when the graph has at least one load; distinct = distinct digests of (loader event history, result).".into()
